@@ -69,7 +69,7 @@ CONSTANTS MaxOps,    \* operations the client may submit
           Feat,      \* subset of {"low","high","close","stop","release","eof","hup","frag","kerr"}
           InFile,    \* TRUE: the inbound object is a regular file of MaxIn bytes
           Dev,       \* named deviations of the pinned code from the property: {} = as the property
-                     \* demands, {"imm_noref"} = as /repo does (see CleanupOnceAfterAll)
+                     \* demands; "imm_noref", "zero_noerr" = as /repo does (see ImmRef, ImmErr)
           Mut,       \* "none" or a spec mutant
           TraceMode, \* TRUE in IoTrace (kernel buffer sizes unknown, log points precede effects)
           Liberal,   \* TRUE: aspects the property does not state are left open (trace pass 2)
@@ -337,6 +337,11 @@ Forces == IF Liberal THEN {"strict", "yes", "no"} ELSE {"strict"}
 \* cleanup handler.  The property wants it ordered; the repaired model takes the reference on the
 \* barrier queue when the channel still has its fd_entry.
 ImmRef == IF "imm_noref" \in Dev THEN FALSE ELSE chFd
+\* A zero-length operation takes the same immediate path with the error computed on the CHANNEL
+\* queue: after dispatch_io_close(0) - whose flag is only set later, on the barrier queue - it
+\* completes with error 0 although the channel is closed.  Repaired model: the error is
+\* (re)computed on the barrier queue, behind the close block.
+ImmErr(e) == IF e # 0 \/ "zero_noerr" \in Dev THEN e ELSE IF flags # {} THEN ECANCELED ELSE 0
 BqStep ==
   /\ bqSusp = 0 /\ bq # <<>>
   /\ bq' = Tail(bq)
@@ -346,8 +351,9 @@ BqStep ==
             \* straight onto the client's queue
             LET o == b.o
                 r == op[o]
-                null == (r.dir = "R" /\ b.v # 0) \/ (r.dir = "W" /\ b.v = 0)
-                S1 == PostBlock(LibS, o, <<Inv(TRUE, r.wdata, null, b.v)>>, ImmRef)
+                err == ImmErr(b.v)
+                null == (r.dir = "R" /\ err # 0) \/ (r.dir = "W" /\ err = 0)
+                S1 == PostBlock(LibS, o, <<Inv(TRUE, r.wdata, null, err)>>, ImmRef)
             IN /\ SetLib([S1 EXCEPT !.op[o].st = "rejected"])
                /\ UNCHANGED <<chvars, bqSusp, sq, bars>>
        [] b.k = "enq" ->   \* _dispatch_operation_enqueue
